@@ -194,13 +194,28 @@ impl<TStdlib: Stdlib, TStdIn: Input, TStdOut: Printer, TLpt1: Printer> Interpret
             statement_addresses,
         } = instruction_generator_result;
         let mut i: usize = 0;
+        let mut is_statement_start = vec![false; instructions.len()];
+        for address in &statement_addresses {
+            if let Some(flag) = is_statement_start.get_mut(*address) {
+                *flag = true;
+            }
+        }
         let mut ctx: InterpretOneContext = InterpretOneContext {
             halt: false,
             error_handler: ErrorHandler::None,
             opt_next_index: None,
             nearest_statement_finder: NearestStatementFinder::new(statement_addresses),
+            statement_stack_depths: vec![None],
         };
         while i < instructions.len() && !ctx.halt {
+            if is_statement_start[i] {
+                // remember how deep the stacks are when the statement starts,
+                // in order to abandon what it pushed if it fails and the error is handled
+                let depths = self.stack_depths();
+                if let Some(slot) = ctx.statement_stack_depths.last_mut() {
+                    *slot = Some(depths);
+                }
+            }
             #[cfg(feature = "verif")]
             if !self.verif_on_tick(i) {
                 break;
@@ -228,6 +243,12 @@ impl<TStdlib: Stdlib, TStdIn: Input, TStdOut: Printer, TLpt1: Printer> Interpret
                         // leave the built-in's context, otherwise the program
                         // continues inside it after the error is handled
                         self.context.pop();
+                    }
+                    if !matches!(ctx.error_handler, ErrorHandler::None) {
+                        // the statement is abandoned: drop what it had pushed so far
+                        if let Some(Some(depths)) = ctx.statement_stack_depths.last() {
+                            self.restore_stack_depths(*depths);
+                        }
                     }
                     match ctx.error_handler {
                         ErrorHandler::Address(handler_address) => {
@@ -271,6 +292,25 @@ pub fn new_default_interpreter(user_defined_types: UserDefinedTypes) -> DefaultI
 impl<TStdlib: Stdlib, TStdIn: Input, TStdOut: Printer, TLpt1: Printer>
     Interpreter<TStdlib, TStdIn, TStdOut, TLpt1>
 {
+    fn stack_depths(&self) -> StackDepths {
+        (
+            self.value_stack.len(),
+            self.var_path_stack.len(),
+            self.by_ref_stack.len(),
+        )
+    }
+
+    fn restore_stack_depths(&mut self, depths: StackDepths) {
+        let (value_depth, var_path_depth, by_ref_depth) = depths;
+        self.value_stack.truncate(value_depth);
+        // new entries are pushed at the back of the variable path stack...
+        self.var_path_stack.truncate(var_path_depth);
+        // ...and at the front of the by-ref stack
+        while self.by_ref_stack.len() > by_ref_depth {
+            self.by_ref_stack.pop_front();
+        }
+    }
+
     pub fn new<TScreen: Screen + 'static>(
         stdlib: TStdlib,
         stdin: TStdIn,
@@ -468,10 +508,14 @@ impl<TStdlib: Stdlib, TStdIn: Input, TStdOut: Printer, TLpt1: Printer>
             }
             Instruction::PushRet(address) => {
                 self.return_address_stack.push(*address);
+                ctx.statement_stack_depths.push(None);
             }
             Instruction::PopRet => {
                 let address = self.return_address_stack.pop().unwrap();
                 ctx.opt_next_index = Some(address);
+                if ctx.statement_stack_depths.len() > 1 {
+                    ctx.statement_stack_depths.pop();
+                }
             }
             Instruction::GoSub(address_or_label) => {
                 self.go_sub_address_stack.push(i);
@@ -666,7 +710,14 @@ impl<TStdlib: Stdlib, TStdIn: Input, TStdOut: Printer, TLpt1: Printer>
 }
 
 /// Context available to the execution of a single instruction.
+/// The depths of the value, variable path and by-ref stacks.
+type StackDepths = (usize, usize, usize);
+
 struct InterpretOneContext {
+    /// The stack depths at the start of the current statement,
+    /// one entry per active procedure call (the last one is the current).
+    statement_stack_depths: Vec<Option<StackDepths>>,
+
     /// The instruction handler can set this to `true` in order to terminate
     /// the program (done by the `SYSTEM` and `END` built-ins).
     halt: bool,
